@@ -171,6 +171,7 @@ class SimFS:
             if ent is None:
                 raise OSError(errno.EBADF, "sim: bad file descriptor")
             raw = SimRaw(self, ent["path"], mode, fd=file, flags=ent["flags"])
+            raw.closefd = bool(closefd)      # closefd=False: the descriptor outlives the file object (os.fdopen(fd, closefd=False))
             path = ent["path"]
         elif opener is not None:
             path = os.fspath(file)
@@ -364,7 +365,7 @@ class SimRaw(io.RawIOBase):
             return
         super().close()
         fs = self.fs
-        if self.fd is not None:
+        if self.fd is not None and getattr(self, "closefd", True):
             fs.fds.pop(self.fd, None)
         if self.dead or fs.dead:
             return
@@ -612,6 +613,66 @@ def _install_os_seam():
             return None
         return _REAL["os_fdatasync"](fd)
 
+    # raw descriptor I/O on simulated descriptors goes through the same SimRaw (and so through the same fault plan)
+    _REAL.update({"os_write": os.write, "os_read": os.read, "os_lseek": os.lseek, "os_dup": os.dup,
+                  "os_sendfile": getattr(os, "sendfile", None)})
+
+    def raw_of(fs, fd):
+        ent = fs.fds[fd]
+        raw = ent.get("raw")
+        if raw is None or raw.closed:
+            acc = ent["flags"] & (os.O_WRONLY | os.O_RDWR)
+            mode = "rb+" if acc == os.O_RDWR else ("wb" if acc == os.O_WRONLY else "rb")
+            raw = SimRaw(fs, ent["path"], mode, fd=fd, flags=ent["flags"])
+            raw.closefd = False
+            fs.handles.append(raw)
+            ent["raw"] = raw
+        return raw
+
+    def os_write(fd, data):
+        fs = fs_or_none()
+        if fs is not None and fd in fs.fds:
+            fs._count("os.write")
+            return raw_of(fs, fd).write(data)
+        return _REAL["os_write"](fd, data)
+
+    def os_read(fd, n):
+        fs = fs_or_none()
+        if fs is not None and fd in fs.fds:
+            fs._count("os.read")
+            b = bytearray(n)
+            k = raw_of(fs, fd).readinto(b)
+            return bytes(b[:k or 0])
+        return _REAL["os_read"](fd, n)
+
+    def os_lseek(fd, pos, how):
+        fs = fs_or_none()
+        if fs is not None and fd in fs.fds:
+            return raw_of(fs, fd).seek(pos, how)
+        return _REAL["os_lseek"](fd, pos, how)
+
+    def os_dup(fd):
+        fs = fs_or_none()
+        if fs is not None and fd in fs.fds:
+            new = fs._next_fd
+            fs._next_fd += 1
+            fs.fds[new] = {"path": fs.fds[fd]["path"], "flags": fs.fds[fd]["flags"]}
+            return new
+        return _REAL["os_dup"](fd)
+
+    def os_sendfile(out_fd, in_fd, offset, count, *a, **kw):
+        fs = fs_or_none()
+        if fs is not None and (out_fd in fs.fds or in_fd in fs.fds):
+            # no zero-copy between simulated files: tell the caller to fall back to read/write (shutil does)
+            raise OSError(errno.ENOTSOCK, "sim: sendfile is not available on the simulated disk")
+        return _REAL["os_sendfile"](out_fd, in_fd, offset, count, *a, **kw)
+
+    os.write = os_write
+    os.read = os_read
+    os.lseek = os_lseek
+    os.dup = os_dup
+    if _REAL["os_sendfile"] is not None:
+        os.sendfile = os_sendfile
     _fcntl.flock = flock
     _fcntl.lockf = lockf
     os.ftruncate = ftruncate
